@@ -52,7 +52,7 @@ def build_case(cs, profile):
         kw.update(max_s=6, max_p=4, max_l=3, min_s=4)
     if profile.get('large_rate') and rng.random() < profile['large_rate']:
         # too large to enumerate: judged by the output oracles only (validity, stability, statistics)
-        kw.update(max_s=25, max_p=12, max_l=6, min_s=12)
+        kw.update(max_s=25, max_p=14, max_l=6, min_s=12)
         kw['shape'] = rng.choice(['dense', 'lowerq', 'tight_lecturer', 'no_ties', 'dense'])
     spec = sp.make_spec(rng, **kw)
     okw = dict(profile.get('opts', {}))
@@ -72,7 +72,12 @@ def lp_case(cs, ctx, profile, probe_rate=0.0, probe_cap=64):
         ctx.cnt('shipped_evaluation_instances')
     if spec['ns'] >= 10:
         ctx.cnt('instances_with_10_or_more_students')
-    ex = en.run_lp(spec, opts, ctx.workdir, rng, inject=profile.get('inject', True))
+    decoy_argv = None
+    if rng.random() < profile.get('decoy_rate', 0.06):
+        d = sp.make_opts(rng, spec, twopl=opts['twopl'] if rng.random() < 0.7 else None)
+        decoy_argv = ['-na', str(spec['na'])] + sp.opts_to_argv(d, rng)
+        ctx.cnt('runs_with_a_second_live_solver_object')
+    ex = en.run_lp(spec, opts, ctx.workdir, rng, inject=profile.get('inject', True), decoy_argv=decoy_argv)
     do_probe = ref['enumerable'] and rng.random() < probe_rate
     cnt = {}
     findings, facts = en.judge_lp(ex, ref, probe_cap=probe_cap if do_probe else 0,
